@@ -78,7 +78,11 @@ def _plan(draw, max_feat):
     top = {}
     for k in draw(st.lists(st.sampled_from(TOP_KEYS), max_size=3, unique=True)):
         top[k] = draw(_json_value)
-    return {"keys": keys, "types": types, "features": feats, "top": top,
+    repeat = None
+    if nf >= 2 and draw(st.integers(0, 29)) == 0:
+        # a collection of a thousand features and more (the drawn ones over and over): beyond any chunk size
+        repeat = draw(st.sampled_from([999, 1000, 1001, 2001, 2500]))
+    return {"repeat": repeat, "keys": keys, "types": types, "features": feats, "top": top,
             "indent": draw(st.sampled_from([None, 0, 2, 4, "default"])),
             "suffix": draw(st.sampled_from(["", "", ".gz", ".bz2", ".xz"]))}
 
@@ -171,6 +175,10 @@ OPEN = {"": open, ".gz": gzip.open, ".bz2": bz2.open, ".xz": lzma.open}
 
 
 def check(plan, ctx):
+    if plan.get("repeat"):
+        base = plan["features"]
+        plan = dict(plan, features=[base[i % len(base)] for i in range(plan["repeat"])])
+        ctx.cls("collection_of_999_features_or_more")
     feats = plan["features"]
     doc = {"type": "FeatureCollection"}
     doc.update(plan["top"])
